@@ -488,8 +488,14 @@ Section Model.
     let u := match k_u k with Some n => n | None => 0%Z end in
     let mid' := match k_mat k with Some m => m | None => mid end in
     let rho' := match k_rho k with Some d => Some (normfloat e d) | None => rho end in
+    (* a void cell has no density (LIKE n BUT MAT=0); int() of the token may fail *)
+    (match pyint mid' with
+     | None => Err EValue
+     | Some 0%Z => Ok None
+     | Some _ => Ok rho'
+     end) >>= fun rho'' =>
     to_fillid k lat_opt >>= fun fid =>
-    Ok (mkCell mid' rho' ast imp u fid (k_fp k) (k_lat k) (trcl_list (k_trcl k))).
+    Ok (mkCell mid' rho'' ast imp u fid (k_fp k) (k_lat k) (trcl_list (k_trcl k))).
 
   Definition card := (string * string * string)%type.   (* material, geometry, options *)
 
